@@ -25,6 +25,7 @@ I(s) == Val("I", <<s>>, <<>>, <<>>)
 L(l) == Val("L", l, <<>>, <<>>)
 T(t) == Val("T", <<>>, t, <<>>)
 D(m) == Val("D", <<>>, <<>>, m)
+N == Val("N", <<>>, <<>>, <<>>)       \* None
 EmptyD == D(<<>>)
 IsD(v) == v.k = "D"
 Has(d, key) == key \in DOMAIN d.m
@@ -33,12 +34,14 @@ Without(d, key) == D([x \in DOMAIN d.m \ {key} |-> d.m[x]])
 
 DI(n) == [k |-> "I", i |-> n, t |-> <<>>]
 DT(t) == [k |-> "T", i |-> 0, t |-> t]
+DN == [k |-> "N", i |-> 0, t |-> <<>>]   \* None
 
 NoVar == [name |-> <<>>, type |-> "", attrs |-> <<>>, g |-> ""]
 Var(v) == [k |-> "var", v |-> v, ch |-> <<>>]
 Cmp(ch) == [k |-> "cmp", v |-> NoVar, ch |-> ch]
 Cmb(ch) == [k |-> "cmb", v |-> NoVar, ch |-> ch]
 CmbKw(ch, kw) == [k |-> "cmb", v |-> kw, ch |-> ch]
+CmpKw(ch, kw) == [k |-> "cmp", v |-> kw, ch |-> ch]   \* Compose(.., **attributes)
 
 (***************************************************************************)
 (* Getters (the harness uses the same table).                              *)
@@ -48,6 +51,9 @@ G(g, d) == CASE g = "inc" -> DI(d.i + 1)
              [] g = "tri" -> DI(3 * d.i)
              [] g = "sq" -> DI(d.i * d.i)
              [] g = "add5" -> DI(d.i + 5)
+             [] g = "none" -> DN                       \* a getter that returns None
+             [] g = "pair" -> DT(<<d, DI(d.i + 1)>>)   \* a getter that returns a pair
+             [] g = "first" -> d.t[1]                  \* first component of a tuple
              [] OTHER -> d
 
 (***************************************************************************)
@@ -98,7 +104,10 @@ RECURSIVE VC(_), FoldVC(_, _), Get(_, _), GetChain(_, _)
 FoldVC(ch, acc) == IF ch = <<>> THEN acc ELSE FoldVC(Tail(ch), UpdateVar(acc, VC(Head(ch))))
 VC(e) ==
   CASE e.k = "var" -> VarContext(e.v)
-    [] e.k = "cmp" -> FoldVC(Tail(e.ch), VC(Head(e.ch)))
+    [] e.k = "cmp" ->
+         \* keyword arguments of Compose (attributes only) update the composed var_context
+         LET vc == FoldVC(Tail(e.ch), VC(Head(e.ch))) IN
+         D([x \in DOMAIN vc.m \cup DOMAIN e.v.attrs |-> IF x \in DOMAIN e.v.attrs THEN e.v.attrs[x] ELSE vc.m[x]])
     [] e.k = "cmb" ->
          \* e.v carries the keyword arguments name / type / attributes (NoVar: none)
          LET vcs == [j \in 1..Len(e.ch) |-> VC(e.ch[j])]
@@ -128,6 +137,9 @@ ApplySeq(ch, val) == IF ch = <<>> THEN val ELSE ApplySeq(Tail(ch), Apply(Head(ch
 (* application order (absent for a single variable on an untyped context). *)
 (***************************************************************************)
 AllTyped(ch) == \A j \in 1..Len(ch) : ch[j].k = "var" /\ ch[j].v.type # ""
+\* a plain variable without type somewhere in the chain (also inside nested expressions)
+RECURSIVE HasUntyped(_)
+HasUntyped(ch) == \E j \in 1..Len(ch) : IF ch[j].k = "var" THEN ch[j].v.type = "" ELSE HasUntyped(ch[j].ch)
 DistinctTypes(ch) == \A j, j2 \in 1..Len(ch) : j # j2 => ch[j].v.type # ch[j2].v.type
 Types(ch) == [j \in 1..Len(ch) |-> ch[j].v.type]
 PrevTypes(ctx) ==
